@@ -21,7 +21,9 @@ from tools.vlib import ROOT
 
 THEOREMS = ["C04_uf_reachable_inv", "C04_uf_same_closure", "C04_uf_history_same_answer",
             "C04_uf_find_terminates", "C04_uf_same_compression_indep", "C04_uf_merge_is_join",
-            "C04_uf_find_rho_diverges_refuted", "C04_uf_pure_cycle_partial"]
+            "C04_uf_find_rho_diverges_refuted", "C04_uf_pure_cycle_partial",
+            "C04_uf_laws", "C04_uf_wf_is_forest", "C04_uf_order_is_refinement",
+            "C04_uf_pure_cycle", "C04_uf_pure_cycle_same"]
 PROPS_VO = "theories/Props/C04uf.vo"
 MODEL_VO = ["theories/Lattice/UF.vo"]
 IMPORTS = "From HV Require Import Lattice.UF."
